@@ -104,4 +104,49 @@ PROPS = {
              "bound": "file with one module: 2 UNITs (symbolic name order), 1 COMPU_METHOD, optional MOD_PAR; sort applied twice", "timeout": 240},
         ],
     },
+    "C02": {
+        "files": ["a2lfile/src/parser.rs", "a2lfile/src/ifdata.rs", "a2lfile/src/writer.rs"],
+        "trusted": T_STD + ["E2 model of core::num::from_str_radix / str::parse::<int> (digit classes, overflow detection)"],
+        "assumptions": ["claimed: numeric literal fidelity per field type (get_integer) - a literal is either stored without loss or rejected",
+                        "hex literals of signed field types are read as bit patterns of the field width (A2L practice); anything wider than the field must be diagnosed",
+                        "token conservation through the 185 generated element parsers is outside the claim"],
+        "jobs": [
+            {"engine": "E2", "module": "parser", "harness": "h_int_%s_%s" % (k, t), "functions": ["parser::ParserState::get_integer", "parser::ParserState::expect_token", "parser::ParserState::get_token_text"],
+             "bound": b, "timeout": 240, "extra_modules": ["tokenizer"], "quick": q}
+            for k, t, b, q in [
+                ("hex", "u8", "'0x' + 3 symbolic hex digits (either case)", True), ("hex", "i8", "'0x' + 3 symbolic hex digits", True),
+                ("hex", "u16", "'0x' + 5 symbolic hex digits", True), ("hex", "i16", "'0x' + 5 symbolic hex digits", True),
+                ("hex", "u32", "'0x' + 9 symbolic hex digits", True), ("hex", "i32", "'0x' + 9 symbolic hex digits", True),
+                ("hex", "u32b", "'0xF' + 8 symbolic hex digits", False), ("hex", "i32b", "'0x7' + 8 symbolic hex digits", False),
+                ("hex", "u64", "'0xFFFFFFFFFFF' + 6 symbolic hex digits (16/17 digit literals)", True), ("hex", "i64", "'0x7FFFFFFFFFF' + 6 symbolic hex digits", True),
+                ("hex", "u64b", "'0x' + 8 symbolic hex digits", False),
+                ("dec", "u8", "optional '-' + 4 symbolic decimal digits", True), ("dec", "i8", "optional '-' + 4 symbolic decimal digits", True),
+                ("dec", "u16", "optional '-' + 6 symbolic decimal digits", True), ("dec", "i16", "optional '-' + 6 symbolic decimal digits", True),
+                ("dec", "u32", "optional '-' + 6 symbolic decimal digits", True), ("dec", "i32", "optional '-' + 6 symbolic decimal digits", False),
+                ("dec", "u32b", "optional '-' + '42949' + 6 symbolic digits (around 2^32)", True), ("dec", "i32b", "optional '-' + '21474' + 6 symbolic digits (around 2^31)", True),
+                ("dec", "u64", "optional '-' + '18446744073709' + 7 symbolic digits (around 2^64)", True), ("dec", "i64", "optional '-' + '9223372036854' + 7 symbolic digits (around 2^63)", True),
+                ("dec", "u64b", "optional '-' + 9 symbolic digits", False),
+            ]
+        ],
+    },
+    "C01": {
+        "files": ["a2lfile/src/parser.rs", "a2lfile/src/writer.rs", "a2lfile/src/tokenizer.rs"],
+        "trusted": T_STD + ["E2 model of core::fmt for integers (hex by nibble extraction, decimal by fresh digit variables with value == sum d_i*10^i)"],
+        "assumptions": ["claimed mechanisms: string escape/unescape/string-end agreement, integer notation replay; the per-element parse/stringify pairs, floats, line offsets (see C05) are outside this check"],
+        "jobs": [
+            {"engine": "E2", "module": "parser", "harness": "h_int_rt_" + t, "functions": ["writer::Writer::add_integer", "parser::ParserState::get_integer"],
+             "bound": b, "timeout": 240, "extra_modules": ["tokenizer"], "quick": q}
+            for t, b, q in [("u8", "every u8, hex and decimal", True), ("i8", "every i8, hex and decimal", True), ("u16", "every u16", True), ("i16", "every i16", True),
+                            ("u32", "hex: every u32; decimal: 65536 values next to 0 / MAX", True), ("i32", "hex: every i32; decimal: 65536 values next to 0 / MAX / MIN", True),
+                            ("u64", "hex: every u64; decimal: 65536 values next to 0 / MAX", True), ("i64", "hex: every i64; decimal: 65536 values next to 0 / MAX / MIN", True)]
+        ] + [
+            {"engine": "E2", "module": "parser", "harness": "h_str_roundtrip_%d" % n, "functions": ["writer::Writer::add_quoted_string", "tokenizer::tokenize_core", "tokenizer::find_string_end", "parser::ParserState::get_string", "parser::unescape_string"],
+             "bound": "every string of %d chars over {\", \\, ', LF, CR, TAB, n, r, t, space, a}" % n, "timeout": 300, "extra_modules": ["tokenizer"], "quick": n <= 3}
+            for n in (1, 2, 3, 4)
+        ] + [
+            {"engine": "E2", "module": "parser", "harness": "h_str_fixpoint_%d" % n, "functions": ["tokenizer::tokenize_core", "parser::ParserState::get_string", "parser::unescape_string", "writer::Writer::add_quoted_string"],
+             "bound": "every accepted string token with %d inner bytes over the same alphabet: second load/write cycle is a fixpoint" % n, "timeout": 300, "extra_modules": ["tokenizer"], "quick": n <= 3}
+            for n in (2, 3, 4)
+        ],
+    },
 }
